@@ -133,6 +133,14 @@ func (u *Universe) Labels() []string { return sortedKeys(u.Specs) }
 
 // Resolve follows aliases to a target label ("" if dangling).
 func (u *Universe) Resolve(l string) string {
+	return u.resolveIn("", l)
+}
+
+// resolveIn resolves a dependency reference of a target in package pkg (":name" is relative).
+func (u *Universe) resolveIn(pkg, l string) string {
+	if strings.HasPrefix(l, ":") {
+		l = "//" + pkg + l
+	}
 	for i := 0; i < 8; i++ {
 		if _, ok := u.Specs[l]; ok {
 			return l
@@ -151,7 +159,7 @@ func (u *Universe) DepTargets(s *Spec) []string {
 	seen := map[string]bool{}
 	var out []string
 	for _, d := range s.Deps {
-		if r := u.Resolve(d); r != "" && !seen[r] {
+		if r := u.resolveIn(s.Pkg, d); r != "" && !seen[r] {
 			seen[r] = true
 			out = append(out, r)
 		}
